@@ -7,7 +7,9 @@ PROP = {
                    "(message and padded packet form) is decoded from generated valid encodings (lnwire's own rapid "
                    "generators driven deterministically by the case seed), structure-aware mutants of them and raw bytes; "
                    "every accepted input must reach a byte fixpoint after one re-encode, generated values must round-trip "
-                   "losslessly within 65535 bytes; in module tlv the four Stream decode entry points must accept exactly "
+                   "losslessly within 65535 bytes; the TLV extension of every message that has one is mutated in isolation "
+                   "(record lengths, non-minimal BigSize, swap/dup/truncate/lower type) and an accepted message must carry an "
+                   "extension that an independent BOLT-1 walker accepts; in module tlv the four Stream decode entry points must accept exactly "
                    "the streams an independent reference recogniser calls canonical and re-encode them byte-identically."),
     "level_note": ("Sampled, not exhaustive. A hang shows up as the shard watchdog (inconclusive), not as a violation. "
                    "Allocation is judged only when grossly exceeded (>64 MiB for one <=65 KB input); the measured maximum "
@@ -18,7 +20,12 @@ PROP = {
              "distinct = distinct (target message type / failure code / tlv mutation class, input class, accepted|rejected "
              "[, reference reason]) tuples observed."),
     "assumptions": ["protocol version 0 only",
-                    "value equality after decode is judged with nil==empty for slices/maps (wire-invisible representation)"],
+                    "value equality after decode is judged with nil==empty for slices/maps (wire-invisible representation)",
+                    "ext_accept_implies_canonical is a diagnostic for the 9 message types whose Decode keeps the extension as "
+                    "opaque bytes on the pinned tree (stfu, dyn_reject, update_fail_htlc, update_fee, update_fail_malformed_htlc, "
+                    "announcement_signatures, query_short_channel_ids, reply_short_channel_ids_end, kickoff_sig)",
+                    "ext_reencode_reproduces_input is a diagnostic: on the pinned tree 15 message types drop unknown extension "
+                    "records on re-encode"],
     "eval_counter": "decodes",
     "race_anchors": ["lnwire/message.go", "lnwire/lnwire.go", "lnwire/extra_bytes.go", "lnwire/custom_records.go",
                      "lnwire/onion_error.go", "lnwire/features.go", "lnwire/query_short_chan_ids.go",
@@ -30,10 +37,13 @@ PROP = {
             "files": ["lnwire/c10_test.go"],
             "shards": {"quick": 8, "thorough": 16},
             "fatal_is_violation": True,
-            "floors": {"quick": {"decodes": 190000, "accepted": 59000, "rejected": 130000, "fixpoint_evals": 59000,
-                                 "lossless_evals": 2280, "alloc_evals": 95000},
-                       "thorough": {"decodes": 6300000, "accepted": 1900000, "rejected": 4300000,
-                                    "fixpoint_evals": 1900000, "lossless_evals": 76000, "alloc_evals": 3200000}},
+            "floors": {"quick": {"decodes": 225000, "accepted": 70000, "rejected": 150000, "fixpoint_evals": 59000,
+                                 "lossless_evals": 2280, "alloc_evals": 95000, "ext_decodes": 36000,
+                                 "ext_accept_implies_canonical_evals": 12000, "ext_reencode_evals": 2900},
+                       "thorough": {"decodes": 7500000, "accepted": 2300000, "rejected": 5000000,
+                                    "fixpoint_evals": 1900000, "lossless_evals": 76000, "alloc_evals": 3200000,
+                                    "ext_decodes": 1200000, "ext_accept_implies_canonical_evals": 400000,
+                                    "ext_reencode_evals": 95000}},
             "watchdog": {"quick": 900, "thorough": 10800},
         },
         {
